@@ -23,7 +23,7 @@ ASSUME = ["the tket circuit returned by to_tk is recorded as (n_qubits, n_bits, 
           "bounded: circuits of Tket!TBuild (weight and depth bounded); the register bookkeeping of to_tk is not "
           "transcribed at algorithm level (no MODEL-DRIFT report for C13)"]
 CONST = {"quick": {"MaxWeight": 4, "MaxMLayers": 3, "replay": 130, "tk_random": 40},
-         "thorough": {"MaxWeight": 5, "MaxMLayers": 3, "replay": 8000, "tk_random": 2000}}
+         "thorough": {"MaxWeight": 5, "MaxMLayers": 3, "replay": 1200, "tk_random": 400}}
 EMPTY_MC = {"ty": [], "layers": []}
 EMPTY_TK = {"nq": 0, "nb": 0, "cmds": [], "postsel": [], "sc": {"re": 1, "im": 0, "s": 0}, "post": EMPTY_MC}
 OPS1 = ["H", "X", "Y", "Z", "S", "T", "Rx", "Rz"]
